@@ -68,13 +68,13 @@ macro_rules! invert_cmd_case {
         }
     };
 }
-//@ob fn="<Invert<E> as Updatable<E>>::update" at=src/devices.rs:78 clause="no command at either terminal: term1 := -; term2 := - (nothing written; reads yield none)"
+//@ob fn="<Invert<E> as Updatable<E>>::update" at=src/devices.rs:78 prop=C13,C03 clause="no command at either terminal: term1 := -; term2 := - (nothing written; reads yield none)"
 invert_cmd_case!(c13_invert_none, false, false);
-//@ob fn="<Invert<E> as Updatable<E>>::update" at=src/devices.rs:78 clause="only side 1 has a command: term1 := c1 @t1 (same kind); term2 := -(c1) @t1 (same kind); reads at terminals 1, 2 yield exactly these"
+//@ob fn="<Invert<E> as Updatable<E>>::update" at=src/devices.rs:78 prop=C13,C03 clause="only side 1 has a command: term1 := c1 @t1 (same kind); term2 := -(c1) @t1 (same kind); reads at terminals 1, 2 yield exactly these"
 invert_cmd_case!(c13_invert_only1, true, false);
-//@ob fn="<Invert<E> as Updatable<E>>::update" at=src/devices.rs:78 clause="only side 2 has a command: term1 := -(c2) @t2; term2 := -(-(c2)) @t2 (kind of c2 at both); reads yield exactly these"
+//@ob fn="<Invert<E> as Updatable<E>>::update" at=src/devices.rs:78 prop=C13,C03 clause="only side 2 has a command: term1 := -(c2) @t2; term2 := -(-(c2)) @t2 (kind of c2 at both); reads yield exactly these"
 invert_cmd_case!(c13_invert_only2, false, true);
-//@ob fn="<Invert<E> as Updatable<E>>::update" at=src/devices.rs:78 clause="both present, all timestamp orders: t2 > t1: term1 := -(c2) @t2; term2 := -(-(c2)) @t2; else (t1 >= t2, side 1 wins ties): term1 := c1 @t1; term2 := -(c1) @t1; issuer's kind and timestamp at both; reads yield exactly these"
+//@ob fn="<Invert<E> as Updatable<E>>::update" at=src/devices.rs:78 prop=C13,C03 clause="both present, all timestamp orders: t2 > t1: term1 := -(c2) @t2; term2 := -(-(c2)) @t2; else (t1 >= t2, side 1 wins ties): term1 := c1 @t1; term2 := -(c1) @t1; issuer's kind and timestamp at both; reads yield exactly these"
 invert_cmd_case!(c13_invert_both, true, true);
 
 //@ob fn="<Invert<E> as Updatable<E>>::update" at=src/devices.rs:78 prop=C13,C09 clause="each device terminal connected to an external terminal, all 16 have/lack subsets of the 4 command slots: the inverter rule is applied to the terminal READS (newer of own and partner, own wins ties); partner slots unchanged; afterwards the read at each device terminal is the newest of everything, mapped to that side"
@@ -153,13 +153,13 @@ macro_rules! gear_cmd_case {
         }
     };
 }
-//@ob fn="<GearTrain<E> as Updatable<E>>::update" at=src/devices.rs:196 clause="no command at either terminal, any ratio: nothing written; reads yield none"
+//@ob fn="<GearTrain<E> as Updatable<E>>::update" at=src/devices.rs:196 prop=C13,C03 clause="no command at either terminal, any ratio: nothing written; reads yield none"
 gear_cmd_case!(c13_gear_none, false, false);
-//@ob fn="<GearTrain<E> as Updatable<E>>::update" at=src/devices.rs:196 clause="only side 1 has a command, any ratio r: term1 := - (c1 @t1 stays); term2 := c1 * r @t1 (same kind); reads yield exactly these"
+//@ob fn="<GearTrain<E> as Updatable<E>>::update" at=src/devices.rs:196 prop=C13,C03 clause="only side 1 has a command, any ratio r: term1 := - (c1 @t1 stays); term2 := c1 * r @t1 (same kind); reads yield exactly these"
 gear_cmd_case!(c13_gear_only1, true, false);
-//@ob fn="<GearTrain<E> as Updatable<E>>::update" at=src/devices.rs:196 clause="only side 2 has a command, any ratio r: term1 := c2 / r @t2 (same kind); term2 := - (c2 @t2 stays); reads yield exactly these"
+//@ob fn="<GearTrain<E> as Updatable<E>>::update" at=src/devices.rs:196 prop=C13,C03 clause="only side 2 has a command, any ratio r: term1 := c2 / r @t2 (same kind); term2 := - (c2 @t2 stays); reads yield exactly these"
 gear_cmd_case!(c13_gear_only2, false, true);
-//@ob fn="<GearTrain<E> as Updatable<E>>::update" at=src/devices.rs:196 clause="both present, all timestamp orders, any ratio r: t1 >= t2 (side 1 wins ties): term2 := c1 * r @t1, term1 := - (keeps c1 @t1); t2 > t1: term1 := c2 / r @t2, term2 := - (keeps c2 @t2); issuer's kind and timestamp at both terminals; reads yield exactly these"
+//@ob fn="<GearTrain<E> as Updatable<E>>::update" at=src/devices.rs:196 prop=C13,C03 clause="both present, all timestamp orders, any ratio r: t1 >= t2 (side 1 wins ties): term2 := c1 * r @t1, term1 := - (keeps c1 @t1); t2 > t1: term1 := c2 / r @t2, term2 := - (keeps c2 @t2); issuer's kind and timestamp at both terminals; reads yield exactly these"
 gear_cmd_case!(c13_gear_both, true, true);
 
 //@ob fn="<GearTrain<E> as Updatable<E>>::update" at=src/devices.rs:196 prop=C13,C09 clause="each device terminal connected to an external terminal, all 16 have/lack subsets of the 4 command slots: the gear-train rule is applied to the terminal READS (newer of own and partner, own wins ties); partner slots unchanged"
@@ -244,17 +244,17 @@ macro_rules! axle_cmd_harness {
         }
     };
 }
-//@ob fn="<Axle<N,E> as Updatable<E>>::update" at=src/devices.rs:295 instance="axle size 1" clause="N=1: a present command is rewritten unchanged (value bits, kind, timestamp); absent: nothing written"
+//@ob fn="<Axle<N,E> as Updatable<E>>::update" at=src/devices.rs:295 instance="axle size 1" prop=C13,C03 clause="N=1: a present command is rewritten unchanged (value bits, kind, timestamp); absent: nothing written"
 axle_cmd_harness!(c13_axle_1, 1, 3);
-//@ob fn="<Axle<N,E> as Updatable<E>>::update" at=src/devices.rs:295 instance="axle size 2" clause="N=2, all 4 subsets and timestamp orders: every terminal := the command with the largest timestamp among those present (first in terminal order on ties), bit-unchanged value, kind and timestamp; none present: nothing written; reads at every terminal yield it"
+//@ob fn="<Axle<N,E> as Updatable<E>>::update" at=src/devices.rs:295 instance="axle size 2" prop=C13,C03 clause="N=2, all 4 subsets and timestamp orders: every terminal := the command with the largest timestamp among those present (first in terminal order on ties), bit-unchanged value, kind and timestamp; none present: nothing written; reads at every terminal yield it"
 axle_cmd_harness!(c13_axle_2, 2, 4);
-//@ob fn="<Axle<N,E> as Updatable<E>>::update" at=src/devices.rs:295 instance="axle size 3" clause="N=3, all 8 subsets and timestamp orders: every terminal := newest present command (first wins ties) unchanged; none: nothing; reads yield it"
+//@ob fn="<Axle<N,E> as Updatable<E>>::update" at=src/devices.rs:295 instance="axle size 3" prop=C13,C03 clause="N=3, all 8 subsets and timestamp orders: every terminal := newest present command (first wins ties) unchanged; none: nothing; reads yield it"
 axle_cmd_harness!(c13_axle_3, 3, 5);
-//@ob fn="<Axle<N,E> as Updatable<E>>::update" at=src/devices.rs:295 tier=thorough instance="axle size 4" clause="N=4, all 16 subsets and timestamp orders: every terminal := newest present command (first wins ties) unchanged; none: nothing; reads yield it"
+//@ob fn="<Axle<N,E> as Updatable<E>>::update" at=src/devices.rs:295 tier=thorough instance="axle size 4" prop=C13,C03 clause="N=4, all 16 subsets and timestamp orders: every terminal := newest present command (first wins ties) unchanged; none: nothing; reads yield it"
 axle_cmd_harness!(c13_axle_4, 4, 6);
-//@ob fn="<Axle<N,E> as Updatable<E>>::update" at=src/devices.rs:295 tier=thorough instance="axle size 5" clause="N=5, all 32 subsets and timestamp orders: every terminal := newest present command (first wins ties) unchanged; none: nothing; reads yield it"
+//@ob fn="<Axle<N,E> as Updatable<E>>::update" at=src/devices.rs:295 tier=thorough instance="axle size 5" prop=C13,C03 clause="N=5, all 32 subsets and timestamp orders: every terminal := newest present command (first wins ties) unchanged; none: nothing; reads yield it"
 axle_cmd_harness!(c13_axle_5, 5, 7);
-//@ob fn="<Axle<N,E> as Updatable<E>>::update" at=src/devices.rs:295 tier=thorough instance="axle size 6" clause="N=6, all 64 subsets and timestamp orders: every terminal := newest present command (first wins ties) unchanged; none: nothing; reads yield it"
+//@ob fn="<Axle<N,E> as Updatable<E>>::update" at=src/devices.rs:295 tier=thorough instance="axle size 6" prop=C13,C03 clause="N=6, all 64 subsets and timestamp orders: every terminal := newest present command (first wins ties) unchanged; none: nothing; reads yield it"
 axle_cmd_harness!(c13_axle_6, 6, 8);
 
 // ======================================================================================== Differential
